@@ -200,6 +200,24 @@ structure LS (α δ : Type) where
   best : Option α
   olog : List (OReq α)
 
+/-- the trial point of the line search for the step `stp` — also the new iterate when the
+step is accepted: `clip2bounds(x0 + stp * d, lb, ub)` -/
+def trial (x0 d lb ub : Vec α) (stp : α) : Vec α := clip (vadd x0 (smul stp d)) lb ub
+
+/-- one pass of the `while _iter < max_iter` loop (linesearch.py:268-302): ask the stepper,
+and on `FG` evaluate the objective and gradient at the trial point and update the best
+trial. Returns the new loop state and whether the loop continues. -/
+def lsStep (u : User α ε) (o : Oracles α δ) (x0 d lb ub : Vec α) (l : LS α δ) :
+    Except ε (LS α δ × Bool) :=
+  let r := o.dcIter l.dc l.stp0 l.fm1 l.dphim1 l.task
+  let l1 : LS α δ := { l with dc := r.1, stp := r.2.1, task := r.2.2,
+                              olog := l.olog ++ [OReq.dc l.stp0 l.fm1 l.dphim1 l.task] }
+  if r.2.2 = .fg then do
+    let e ← l1.sf.funAndGrad u.toSFUser (trial x0 d lb ub r.2.1)
+    let l2 : LS α δ := { l1 with sf := e.1, stp0 := r.2.1, fm1 := e.2.1, dphim1 := dot e.2.2 d }
+    pure (if e.2.1 < l2.fBest then { l2 with fBest := e.2.1, best := some r.2.1 } else l2, true)
+  else pure (l1, false)
+
 /-- the `while _iter < max_iter` loop; `fuel = max_iter - _iter`.
 Returns the final loop state and whether the loop ran out of iterations (the `else`
 branch of the `while`). -/
@@ -207,15 +225,8 @@ def lsLoop (u : User α ε) (o : Oracles α δ) (x0 d lb ub : Vec α) :
     Nat → LS α δ → Except ε (LS α δ × Bool)
   | 0, l => pure (l, true)
   | fuel + 1, l => do
-    let (dc, stp, task) := o.dcIter l.dc l.stp0 l.fm1 l.dphim1 l.task
-    let l := { l with dc := dc, stp := stp, task := task,
-                      olog := l.olog ++ [OReq.dc l.stp0 l.fm1 l.dphim1 l.task] }
-    if task = .fg then
-      let (sf, f, g) ← l.sf.funAndGrad u.toSFUser (clip (vadd x0 (smul stp d)) lb ub)
-      let l := { l with sf := sf, stp0 := stp, fm1 := f, dphim1 := dot g d }
-      let l := if f < l.fBest then { l with fBest := f, best := some stp } else l
-      lsLoop u o x0 d lb ub fuel l
-    else pure (l, false)
+    let r ← lsStep u o x0 d lb ub l
+    if r.2 then lsLoop u o x0 d lb ub fuel r.1 else pure (r.1, false)
 
 /-- `line_search` (linesearch.py:95-325) -/
 def lineSearch (u : User α ε) (o : Oracles α δ) (c : Cfg α) (x0 : Vec α) (f0 : α)
@@ -282,9 +293,9 @@ def doCallback (u : User α ε) (c : Cfg α) (s : St α) : Except ε (St α) :=
 /-- an accepted step (main.py:570-645) -/
 def iterStep (u : User α ε) (c : Cfg α) (s : St α) (d : Vec α) (stp f0Old : α) :
     Except ε (St α × Flow) := do
-  let x := clip (vadd s.x (smul stp d)) c.lb c.ub
-  let (sf, f, g) ← s.sf.funAndGrad u.toSFUser x
-  let s := { s with x := x, f := f, g := g, sf := sf }
+  let x := trial s.x d c.lb c.ub stp
+  let e ← s.sf.funAndGrad u.toSFUser x
+  let s := { s with x := x, f := e.2.1, g := e.2.2, sf := e.1 }
   let (s, stop) ← afterEval u c s f0Old
   if stop then pure (s, .brk) else
   let (X, G, mats, _) := updateMats s.x s.g s.X s.G c.maxcor s.mats c.epsSY
@@ -341,62 +352,108 @@ def evalThresh (fn : Unit → Except ε α) (k : CallKind) (sf : SF α) :
     let a ← fn ()
     pure (sf, a)
 
+/-- what is known after the first objective evaluation and the one-shot evaluation of the
+thresholds (main.py:355-407) -/
+structure Init (α : Type) where
+  x : Vec α
+  X : List (Vec α)
+  G : List (Vec α)
+  sf : SF α
+  f0 : α
+  ftarget : Option α
+  gtol : α
+  nit : Nat
+
+/-- main.py:355-387: the wrapper, with the checkpoint's counters on a restart, and the first
+objective value (evaluated, or taken from the checkpoint). -/
+def firstEval (u : User α ε) (c : Cfg α) : Except ε (SF α × α) :=
+  let x := clip c.x0 c.lb c.ub
+  let sf0 : SF α := SF.new c.mode x c.lb c.ub
+  match c.checkpoint with
+  | none => sf0.funv u.toSFUser x
+  | some ck => pure ({ sf0 with nfev := ck.nfev, ngev := ck.njev }, ck.f)
+
+/-- main.py:389-396: one-shot evaluation of `ftarget` -/
+def evalFtarget (u : User α ε) (c : Cfg α) (sf : SF α) : Except ε (SF α × Option α) :=
+  match c.ftarget with
+  | none => pure (sf, none)
+  | some th => do let r ← evalThresh u.ftargetFn .ftarget sf th; pure (r.1, some r.2)
+
+/-- main.py:355-407: clip the start, restore the memory and the counters from the checkpoint,
+evaluate the objective (unless restarted) and the callable thresholds. -/
+def initEval (u : User α ε) (c : Cfg α) : Except ε (Init α) := do
+  let x := clip c.x0 c.lb c.ub
+  let XG : List (Vec α) × List (Vec α) := match c.checkpoint with
+    | none => ([], [])
+    | some ck => restoreXG x ck.jac ck.sk ck.yk c.maxcor
+  let e ← firstEval u c
+  let t ← evalFtarget u c e.1
+  let gt ← evalThresh u.gtolFn .gtol t.1 c.gtol
+  let nit := match c.checkpoint with | none => 0 | some ck => ck.nit
+  pure { x := x, X := XG.1, G := XG.2, sf := gt.1, f0 := e.2, ftarget := t.2, gtol := gt.2, nit := nit }
+
+def Init.state (i : Init α) : St α :=
+  { x := i.x, f := i.f0, g := [], X := i.X, G := i.G, mats := none, sf := i.sf, nit := i.nit,
+    task := .start, success := false, warnflag := 2, ftarget := i.ftarget, gtol := i.gtol,
+    cbStates := [], olog := [] }
+
+/-- the result when the start already satisfies the target (main.py:412-433) -/
+def earlyResult (c : Cfg α) (i : Init α) : Result α × St α :=
+  let s := { i.state with task := .target, success := true, warnflag := 0 }
+  match c.checkpoint with
+  | some ck => ({ ck with msg := .target, success := true, status := 0 }, s)
+  | none =>
+    let s := { s with X := [i.x], G := [i.x.map fun _ => 0], g := i.x.map fun _ => 0 }
+    (s.result, s)
+
+/-- main.py:435-439: the first gradient (computed, or taken from the checkpoint) -/
+def firstGrad (u : User α ε) (c : Cfg α) (i : Init α) : Except ε (SF α × Vec α) :=
+  match c.checkpoint with
+  | none => i.sf.gradv u.toSFUser i.x
+  | some ck => pure (i.sf, ck.jac)
+
+/-- main.py:441-452: the gradient scaler sets the scaling factor of the wrapper -/
+def applyScaler (u : User α ε) (c : Cfg α) (s : St α) (grad : Vec α) : Except ε (St α) :=
+  if c.hasScaler then do
+    let s := s.logCall .scaler s.x
+    let sc ← u.scaler s.x grad
+    pure { s with sf := { s.sf with scale := sc } }
+  else pure s
+
+/-- main.py:456-459: initial invocation of the update function -/
+def applyUpdate0 (u : User α ε) (c : Cfg α) (s : St α) : Except ε (St α) :=
+  if c.hasUpdate then do
+    let s := s.logCall .update s.x
+    let r ← u.update { x := s.x, f0 := s.f, f0Old := s.f, grad := s.g, X := s.X, G := s.G }
+    pure { s with f := r.f0, g := r.grad, G := r.G }
+  else pure s
+
+/-- main.py:461-477: initial memory -/
+def initMemory (c : Cfg α) (s : St α) : St α :=
+  if s.X.length > 0 then
+    let m := updateMats s.x s.g s.X s.G c.maxcor s.mats c.epsSY
+    { s with X := m.1, G := m.2.1, mats := m.2.2.1 }
+  else { s with X := [s.x], G := [s.g] }
+
+/-- main.py:435-488: first gradient, scaler, scaling, initial update of the objective
+definition, initial memory. -/
+def prepare (u : User α ε) (c : Cfg α) (i : Init α) : Except ε (St α) := do
+  let e ← firstGrad u c i
+  let s ← applyScaler u c { i.state with sf := e.1 } e.2
+  let s := { s with f := i.f0 * s.sf.scale, g := vscale e.2 s.sf.scale }
+  let s ← applyUpdate0 u c s
+  pure (initMemory c s)
+
 /-- `minimize_lbfgsb` (main.py:347-681). Inputs are assumed to have passed `get_bounds` and
 the checkpoint consistency checks (`x0` in the box, `lb ≤ ub`, `x0 = checkpoint.x`). -/
 def minimize (u : User α ε) (o : Oracles α δ) (c : Cfg α) : Except ε (Result α × St α) := do
-  let x := clip c.x0 c.lb c.ub
-  let (X, G) := match c.checkpoint with
-    | none => (([] : List (Vec α)), ([] : List (Vec α)))
-    | some ck => restoreXG x ck.jac ck.sk ck.yk c.maxcor
-  let sf : SF α := SF.new c.mode x c.lb c.ub
-  let sf := match c.checkpoint with
-    | none => sf
-    | some ck => { sf with nfev := ck.nfev, ngev := ck.njev }
-  let (sf, f0) ← match c.checkpoint with
-    | none => sf.funv u.toSFUser x
-    | some ck => pure (sf, ck.f)
-  let (sf, ftarget) ← match c.ftarget with
-    | none => pure (sf, (none : Option α))
-    | some t => do let (sf, a) ← evalThresh u.ftargetFn .ftarget sf t; pure (sf, some a)
-  let (sf, gtol) ← evalThresh u.gtolFn .gtol sf c.gtol
-  let nit := match c.checkpoint with | none => 0 | some ck => ck.nit
-  let s : St α :=
-    { x := x, f := f0, g := [], X := X, G := G, mats := none, sf := sf, nit := nit,
-      task := .start, success := false, warnflag := 2, ftarget := ftarget, gtol := gtol,
-      cbStates := [], olog := [] }
-  if targetReached (f0 / sf.scale) ftarget then
-    let s := { s with task := .target, success := true, warnflag := 0 }
-    match c.checkpoint with
-    | some ck => pure ({ ck with msg := .target, success := true, status := 0 }, s)
-    | none =>
-      let s := { s with X := [x], G := [x.map fun _ => 0], g := x.map fun _ => 0 }
-      pure (s.result, s)
-  else
-  let (sf, grad) ← match c.checkpoint with
-    | none => sf.gradv u.toSFUser x
-    | some ck => pure (sf, ck.jac)
-  let s := { s with sf := sf }
-  let s ← if c.hasScaler then do
-      let s := s.logCall .scaler x
-      let sc ← u.scaler x grad
-      pure { s with sf := { s.sf with scale := sc } }
-    else pure s
-  let f0 := f0 * s.sf.scale
-  let grad := vscale grad s.sf.scale
-  let s := { s with f := f0, g := grad }
-  let s ← if c.hasUpdate then do
-      let s := s.logCall .update x
-      let r ← u.update { x := x, f0 := f0, f0Old := f0, grad := grad, X := s.X, G := s.G }
-      pure { s with f := r.f0, g := r.grad, G := r.G }
-    else pure s
-  let s :=
-    if s.X.length > 0 then
-      let (X, G, mats, _) := updateMats x s.g s.X s.G c.maxcor s.mats c.epsSY
-      { s with X := X, G := G, mats := mats }
-    else { s with X := [x], G := [s.g] }
-  let s ← mainLoop u o c (c.maxiter - s.nit) s
-  let s := classify c s
-  pure (s.result, s)
+  let i ← initEval u c
+  if targetReached (i.f0 / i.sf.scale) i.ftarget then pure (earlyResult c i)
+  else do
+    let s0 ← prepare u c i
+    let s1 ← mainLoop u o c (c.maxiter - s0.nit) s0
+    let s2 := classify c s1
+    pure (s2.result, s2)
 
 end defs
 end Lbfgsb
